@@ -438,7 +438,18 @@ def run_query(mesh, q):
     # and whose mesh has been moved since: all vertices are shifted by d, the query is asked about the shifted geometry and
     # the vertices are put back afterwards.  A finder answers about the vertices where they are now.
     d = None
-    if int(hashlib.sha1(json.dumps(q, sort_keys=True, default=str).encode()).hexdigest()[:4], 16) % 2 == 0:
+    hq = int(hashlib.sha1(json.dumps(q, sort_keys=True, default=str).encode()).hexdigest()[:4], 16)
+    if hq % 5 == 1:
+        # the mesh is assembled anew under the finder's feet (Mesh.backport: same positions and numbering, new vertex
+        # objects): a finder answers with the vertices the mesh has NOW
+        try:
+            fnd.find_in_sphere(list(q["p"]) if q["kind"] == "sphere" else list(q["o"]), 0.5)
+        except Exception:  # noqa: BLE001
+            pass
+        with warnings.catch_warnings():
+            warnings.simplefilter("ignore")
+            mesh.backport()
+    if hq % 2 == 0:
         d = [0.75, -1.25, 0.5]
         try:
             fnd.find_in_sphere(list(q["p"]) if q["kind"] == "sphere" else list(q["o"]), 0.5)
@@ -456,6 +467,8 @@ def run_query(mesh, q):
         else:
             res = fnd.find_on_plane(sh(q["o"]), list(q["n"]))
         out = sorted(v.index for v in res)
+        if any(v.index >= len(mesh.vertices) or v is not mesh.vertices[v.index] for v in res):
+            out = [99999]  # objects that are not vertices of the mesh (any more)
     finally:
         if d:
             for v in mesh.vertices:
@@ -792,13 +805,20 @@ def gen_block(rng, max_tilt=0.45, max_dist=0.16):
         ey = unit(ey)
         ez = cross(ex, ey)
         dims = [rng.uniform(0.6, 3.0) for _ in range(3)]
+        bits = 10
+        if rng.random() < 0.25:
+            # sub-millimetre bars and plates (what is front / top is a matter of directions, not of size or face area)
+            k = rng.choice([12, 14, 15])
+            base = rng.choice([[10, 1, 1], [1, 10, 1], [1, 1, 10], [8, 8, 1], [1, 8, 8], [8, 1, 8]])
+            dims = [b * rng.uniform(0.8, 1.2) * 2.0 ** -k for b in base]
+            bits = 14 + k
         ctr = [rng.uniform(-3, 3) for _ in range(3)]
         amp = rng.choice([0.0, 0.05, 0.1, max_dist]) * min(dims)
         C = []
         for (x, y, z) in XYZ:
             p = add(ctr, add(add(mul((x - .5) * dims[0], ex), mul((y - .5) * dims[1], ey)), mul((z - .5) * dims[2], ez)))
             p = add(p, mul(amp * rng.random(), rand_dir(rng)))
-            C.append([dyadic(q, 10) for q in p])
+            C.append([dyadic(q, bits) for q in p])
         try:
             h = ConvexHull(np.array(C))
         except Exception:
